@@ -94,15 +94,113 @@ def run(ctx):
     lp = [x for x in walk(body_of(P)) if x.get('kind') == 'CXXForRangeStmt']
     ctx.require(len(lp) == 1, 'parse: token loop not found')
     lb = loop_body(lp[0])
-    ctx.check(adds_token(lb) and not any(x.get('kind') in ('ContinueStmt', 'BreakStmt', 'ReturnStmt') and enclosing(x, LOOPS) is lp[0] for x in walk(lb)), R, 'parse|every-token-stored', lp[0], 'every path through the loop body stores the token', 'some path through parse()\'s loop body drops the token (or a repeated flag letter is recorded conditionally)')
+    # Classification is decided as a finite boolean problem: the token shape is described by six
+    # atoms (empty, first char is a dash, length 1, second char is a dash, length 2, an '=' was found);
+    # every store site's path condition is evaluated on all consistent assignments and the union
+    # per kind of store must be exactly the documented class.  Any control-flow shape is accepted.
     adds = [c for c in walk(lb) if is_add(c)]
-    conds = sorted({nf(if_parts(x)[0]) for x in walk(lb) if x.get('kind') == 'IfStmt'})
-    want_conds = sorted(['(!arg.empty() && (45 == arg[0]))', '(1 == arg.size())', '(45 == arg[1])', '(2 == arg.size())', '(equal_pos != npos)'])
-    got_norm = sorted(c.replace('std::basic_string<char>::npos', 'npos').replace('std::string::npos', 'npos') for c in conds)
-    ctx.check(got_norm == want_conds, R, 'parse|partition', lp[0], 'branches on empty / leading dash / length 1 / second dash / length 2 / presence of =', 'classification conditions are %s' % got_norm)
-    slices = sorted(nf(c) for c in adds)
-    want_sl = sorted(['this.positional.emplace_back(move(arg))'] * 3 + ['this.named[arg.substr(2, (equal_pos - 2))].emplace_back(arg.substr((1 + equal_pos)))', 'this.named[arg.substr(2)].emplace_back("")', 'this.named[arg.substr(z, 1)].emplace_back("")'])
-    ctx.check(slices == want_sl, R, 'parse|slices', lp[0], 'name = text between -- and =, value = text after =; flags = one letter each', 'token slices are %s' % slices)
+    ATOMS = ['E', 'D0', 'S1', 'D1', 'S2', 'EQ']
+
+    def atom_of(n):
+        """(atom, positive?) for a leaf condition, or None"""
+        n0 = strip(n)
+        t = nf(n0).replace('std::basic_string<char>::npos', 'npos').replace('std::string::npos', 'npos')
+        if t == 'arg.empty()':
+            return 'E', True
+        r = relation(n0, True)
+        if r and r[1] in ('==', '!='):
+            a_, b_ = sorted([nf(r[0]).replace('std::basic_string<char>::npos', 'npos').replace('std::string::npos', 'npos'), nf(r[2]).replace('std::basic_string<char>::npos', 'npos').replace('std::string::npos', 'npos')])
+            key = {('45', 'arg[0]'): 'D0', ('45', 'arg[1]'): 'D1', ('1', 'arg.size()'): 'S1', ('2', 'arg.size()'): 'S2'}.get((a_, b_))
+            if key:
+                return key, r[1] == '=='
+            if 'npos' in (a_, b_) and any('find(61' in x_ or 'equal_pos' in x_ for x_ in (a_, b_)):
+                return 'EQ', r[1] == '!='
+            if (a_, b_) == ('0', 'arg.size()'):
+                return 'E', r[1] == '=='
+        return None
+
+    def ev(n, asg):
+        n0 = strip(n)
+        k = n0.get('kind')
+        if k == 'UnaryOperator' and n0.get('opcode') == '!':
+            v = ev(n0['inner'][0], asg)
+            return None if v is None else (not v)
+        if k == 'BinaryOperator' and n0.get('opcode') in ('&&', '||'):
+            x, y = ev(n0['inner'][0], asg), ev(n0['inner'][1], asg)
+            if x is None or y is None:
+                # short-circuit may still decide
+                if n0['opcode'] == '&&' and (x is False or y is False):
+                    return False
+                if n0['opcode'] == '||' and (x is True or y is True):
+                    return True
+                return None
+            return (x and y) if n0['opcode'] == '&&' else (x or y)
+        if k == 'DeclRefExpr':
+            rd = n0.get('referencedDecl') or {}
+            if ((rd.get('type') or {}).get('qualType') or '').replace('const ', '') == 'bool':
+                from path import _single_assignment_init
+                init = _single_assignment_init(rd)
+                if init is not None:
+                    return ev(init, asg)
+        at = atom_of(n0)
+        if at is None:
+            return None
+        return asg[at[0]] if at[1] else (not asg[at[0]])
+    rows = []
+    import itertools
+    for bits in itertools.product((False, True), repeat=6):
+        asg = dict(zip(ATOMS, bits))
+        if asg['E'] and (asg['D0'] or asg['S1'] or asg['D1'] or asg['S2']):
+            continue
+        if asg['S1'] and (asg['S2'] or asg['D1']):
+            continue
+        rows.append(asg)
+
+    def kind_of(c):
+        t = nf(c)
+        if t.startswith('this.positional.'):
+            return 'positional' if t == 'this.positional.emplace_back(move(arg))' or t == 'this.positional.emplace_back(arg)' or t == 'this.positional.push_back(arg)' else None
+        if t == 'this.named[arg.substr(2, (equal_pos - 2))].emplace_back(arg.substr((1 + equal_pos)))':
+            return 'named=value'
+        if t in ('this.named[arg.substr(2)].emplace_back("")', 'this.named[arg.substr(2)].emplace_back()'):
+            return 'named'
+        if t in ('this.named[arg.substr(z, 1)].emplace_back("")', 'this.named[arg.substr(z, 1)].emplace_back()'):
+            return 'flags'
+        return None
+    want_cls = {
+        'positional': lambda a: a['E'] or not a['D0'] or a['S1'] or (a['D1'] and a['S2']),
+        'flags': lambda a: a['D0'] and not a['E'] and not a['S1'] and not a['D1'],
+        'named=value': lambda a: a['D0'] and not a['S1'] and a['D1'] and not a['S2'] and a['EQ'],
+        'named': lambda a: a['D0'] and not a['S1'] and a['D1'] and not a['S2'] and not a['EQ'],
+    }
+    reach = {k_: [False] * len(rows) for k_ in want_cls}
+    unknown_site = None
+    for c in adds:
+        kd = kind_of(c)
+        if kd is None:
+            ctx.bad(R, 'parse|slices|%s' % nf(c)[:50], c, 'token is stored as `%s`, which is none of: positional arg / name between -- and = with the value after = / --name with empty value / one letter per flag' % nf(c))
+            continue
+        facts = path_facts(c, stop=lp[0])
+        # conditions of loops between the site and the token loop (the flag-group loop) are not shape atoms
+        facts = [f_ for f_ in facts if f_.origin is None or f_.origin.get('kind') not in LOOPS]
+        for i_, asg in enumerate(rows):
+            vals = [ev(f_.cond, asg) for f_ in facts]
+            if any(v is None for v in vals):
+                unknown_site = (c, [nf(f_.cond) for f_, v in zip(facts, vals) if v is None][:2])
+                break
+            if all(v == f_.pol for v, f_ in zip(vals, facts)):
+                reach[kd][i_] = True
+    if unknown_site is not None:
+        ctx.undecided(R, 'parse|partition', unknown_site[0], 'a store site is guarded by a condition outside the six token-shape atoms: %s' % unknown_site[1])
+    else:
+        for kd, fn_ in want_cls.items():
+            wrong = [rows[i_] for i_ in range(len(rows)) if reach[kd][i_] != bool(fn_(rows[i_]))]
+            ctx.check(not wrong, R, 'parse|partition|' + kd, lp[0], 'tokens stored as %s are exactly the documented class' % kd,
+                      'a token with shape {%s} is %s stored as %s' % (', '.join('%s=%d' % (k_, v_) for k_, v_ in (wrong[0] if wrong else {}).items()), 'wrongly' if wrong and reach[kd][rows.index(wrong[0])] else 'not', kd))
+        multi = [i_ for i_ in range(len(rows)) if sum(1 for kd in reach if reach[kd][i_]) != 1]
+        ctx.check(not multi, R, 'parse|every-token-stored', lp[0], 'every token shape reaches exactly one kind of store', 'a token with shape {%s} reaches %d kinds of store: it is dropped or recorded twice' % (', '.join('%s=%d' % (k_, v_) for k_, v_ in (rows[multi[0]] if multi else {}).items()), sum(1 for kd in reach if multi and reach[kd][multi[0]])))
+    esc = [x for x in walk(lb) if x.get('kind') in ('BreakStmt', 'ReturnStmt') and enclosing(x, LOOPS) is lp[0]]
+    ctx.check(not esc, R, 'parse|no-early-exit', esc[0] if esc else lp[0], 'the token loop is never left early', 'parse() leaves the token loop early: the remaining tokens are dropped')
     fl = [x for x in walk(lb) if x.get('kind') == 'ForStmt']
     okf = len(fl) == 1
     if okf:
@@ -186,6 +284,22 @@ def run(ctx):
         for x in walk(sw[0]) if sw else []:
             if x.get('kind') == 'IfStmt' and nf(if_parts(x)[0]) in ('(conversion_end == text.c_str())', '(text.c_str() == conversion_end)') and any(t.get('kind') == 'CXXThrowExpr' and 'invalid_argument' in (dtype(kids(t)[0]) or '') for t in walk(if_parts(x)[1])):
                 nodig += 1
+        if not bases:
+            # the switch may only select the base; the conversion and the no-digits test follow once
+            from guard import subst_locals
+            outer = [c for c in walk(body) if c.get('kind') == 'CallExpr' and call_name(c) == 'strtoull' and not (sw and any(c is y for y in walk(sw[0])))]
+            if len(outer) == 1 and sw:
+                bv_ = ref_decl(call_args(outer[0])[2])
+                if bv_ is not None:
+                    bases = [int_value(x['inner'][1]) for x in walk(sw[0]) if x.get('kind') == 'BinaryOperator' and x.get('opcode') == '=' and (ref_decl(x['inner'][0]) or {}).get('id') == bv_.get('id')]
+                    a0 = subst_locals(nf(call_args(outer[0])[0]), outer[0])
+                    endv = nf(call_args(outer[0])[1])
+                    if a0 != 'text.c_str()' or not endv.startswith('&'):
+                        bases.append('bad-args')
+                    for x in stmts_of(body):
+                        if x.get('kind') == 'IfStmt' and x['_off'] > outer[0]['_off'] and subst_locals(nf(if_parts(x)[0]), x) in ('(%s == text.c_str())' % endv[1:], '(text.c_str() == %s)' % endv[1:]) and not falls_through(if_parts(x)[1]) and \
+                           any(t.get('kind') == 'CXXThrowExpr' and 'invalid_argument' in (dtype(kids(t)[0]) or '') for t in walk(if_parts(x)[1])):
+                            nodig = 4
         ctx.check(bases == [0, 16, 10, 8] and nodig == 4, R, lab + '|bases-and-no-digits', f, 'DEFAULT/HEX/DECIMAL/OCTAL -> base 0/16/10/8, each rejecting text without digits', 'bases are %s, %d of 4 cases reject digit-less text' % (bases, nodig))
         trail = [x for x in stmts_of(body) if x.get('kind') == 'IfStmt' and nf(if_parts(x)[0]) in ('(0 != *conversion_end)', '(*conversion_end != 0)') and not falls_through(if_parts(x)[1])]
         rets = [r for r in walk(body) if r.get('kind') == 'ReturnStmt']
@@ -286,7 +400,7 @@ def run(ctx):
         key = 'get<string>(%s)|missing-is-out_of_range' % (qtype(params_of(f)[0]) or '').replace('std::', '')
         if key in [o.key for o in ctx.obs]:
             continue
-        th = [x for x in walk(body_of(f)) if x.get('kind') == 'CXXThrowExpr' and kids(x)]
+        th = [x for x in walk_deep(body_of(f), w) if x.get('kind') == 'CXXThrowExpr' and kids(x)]
         types = {(dtype(kids(x)[0]) or '').replace('std::', '') for x in th}
         ctx.check('out_of_range' in types and types <= {'out_of_range', 'logic_error'}, R, key, f, 'a missing argument raises out_of_range', 'string getter throws %s' % sorted(types))
     ctx.note('Instantiated for uint8..int64, float, double, bool, std::string via witness/c17.cc. Not decided: strtoull saturation for magnitudes >= 2^64; shell-like tokenisation (see C08).')
